@@ -395,6 +395,16 @@ class BaseWorld:
         zpath.TOKENS.clear()
         self.install()
 
+    def spin(self):
+        """a BEGIN met the write lock held by a suspended client: a retrying caller would wait for ever in a
+        well-nested schedule -- cut after 2 spins ("still waiting" is a legal prefix)"""
+        self.spins = getattr(self, 'spins', 0) + 1
+        if self.spins > 2:
+            ex = Ctx.cur
+            if ex is not None:
+                ex.aborting = True
+            raise Spin('waiting for a lock held by a suspended client')
+
     # ---- events / directives
     def start_events(self):
         self.counting = True
@@ -551,6 +561,27 @@ class World(BaseWorld):
         tm = types.SimpleNamespace(time=self.time, sleep=self.sleep, monotonic=self.time)
         th = types.SimpleNamespace(local=lambda: Local(w), get_ident=lambda: w.tid, Thread=None)
         self._bind_modules(sq, self.fs.open, osm, opm, tm, th)
+        self.tmp_ctr = 0
+
+        def mkdtemp(suffix=None, prefix=None, dir=None):
+            w.tmp_ctr += 1
+            d = '/tmp/%s%d' % (prefix or 'tmp', w.tmp_ctr)
+            w.fs.add_dir(d)
+            return d
+
+        def rmtree(d, ignore_errors=False, onerror=None):
+            for p in [p for p in w.fs.files if p.startswith(d + '/')]:
+                del w.fs.files[p]
+            for p in [p for p in w.fs.dirs if p == d or p.startswith(d + '/')]:
+                w.fs.dirs.discard(p)
+            self.dbs.pop(posixpath.join(d, 'cache.db'), None)
+        L.core.tempfile = types.SimpleNamespace(mkdtemp=mkdtemp)
+        if getattr(L, 'persistent', None) is not None:
+            L.persistent.rmtree = rmtree
+        if getattr(L, 'fanout', None) is not None:
+            L.fanout.tempfile = types.SimpleNamespace(mkdtemp=mkdtemp)
+            if hasattr(L.fanout, 'shutil'):
+                L.fanout.shutil = types.SimpleNamespace(rmtree=rmtree)
 
     # ---- symbolic inputs (names are the replay interface)
     def int(self, name, lo=None, hi=None):
